@@ -15,7 +15,7 @@ from .core import mkstate, enc
 
 D = decimal.Decimal
 ALPHA = {
-    'string': ['a', 'a,b', 'q"q', 'l1\nl2', 'é😀', ''],
+    'string': ['a', 'a,b', 'q"q', 'l1\nl2', 'é😀', '', 'C:\\t\\n', "'", ';|x'],
     'integer': [-1, 0, 10 ** 20],
     'number': [-1, 0.1, D('1.000000000000000000001'), 1e-7, D('1E+2')],
     'boolean': [True, False],
@@ -23,7 +23,7 @@ ALPHA = {
     'time': [datetime.time(1, 2, 3), datetime.time(23, 59, 59)],
     'datetime': [datetime.datetime(2020, 1, 2, 3, 4, 5), datetime.datetime(1, 1, 1, 0, 0, 0)],
     'year': [2020, 1],
-    'array': [[1, 'a', [2.5, None]], []],
+    'array': [[1, 'a', [2.5, None]], [], ['q"\n\\']],
     'object': [{'k': [1, {'n': None}], 'é': 'x'}, {}],
 }
 TEMPORAL_FMT = {'date': '%d/%m/%Y', 'time': '%Hh%Mm%Ss', 'datetime': '%d/%m/%Y %H:%M:%S'}
